@@ -325,6 +325,13 @@ func checkVerifiedMeansUnchanged(c *Ctx, fn *ssa.Function, exempt func(*ssa.Func
 	checkVerifiedMeansUnchangedAs(c, "R3.3", fn, exempt)
 }
 
+var verifiedHelperSeen = map[string]bool{}
+
+func isBoolType(t types.Type) bool {
+	b, ok := t.Underlying().(*types.Basic)
+	return ok && b.Kind() == types.Bool
+}
+
 func checkVerifiedMeansUnchangedAs(c *Ctx, rule string, fn *ssa.Function, exempt func(*ssa.Function) bool) {
 	p := c.Prog
 	name := FuncName(fn)
@@ -346,6 +353,29 @@ func checkVerifiedMeansUnchangedAs(c *Ctx, rule string, fn *ssa.Function, exempt
 	}
 	for _, w := range writeSitesIn(fn, exempt) {
 		w := w
+		// a same-package helper with the same (verified, error) result whose answer is handed on
+		// unchanged is judged on its own: after a write inside it, it must answer false
+		if g := w.Common().StaticCallee(); g != nil && g.Blocks != nil && g.Pkg == fn.Pkg && g != fn &&
+			g.Signature.Results().Len() == fn.Signature.Results().Len() && g.Signature.Results().Len() == 2 && isBoolType(g.Signature.Results().At(0).Type()) {
+			handedOn := true
+			for _, r := range WalkCP(PointAfter(w.(ssa.Instruction)), nil, IsReturn, ReachOpts{}) {
+				ret := r.Instr.(*ssa.Return)
+				v := Forwarded(Resolve(ret.Results[0], r.Env))
+				ex, ok := v.(*ssa.Extract)
+				if !ok || ex.Tuple != w.(ssa.Value) || ex.Index != 0 {
+					handedOn = false
+				}
+			}
+			if hk := c.Prop + "|" + rule + "|" + FuncName(g); handedOn && !verifiedHelperSeen[hk] {
+				verifiedHelperSeen[hk] = true
+				n++
+				checkVerifiedMeansUnchangedAs(c, rule, g, exempt)
+				continue
+			} else if handedOn {
+				n++
+				continue
+			}
+		}
 		check(shortCallee(w), w.(ssa.Instruction), PointAfter(w.(ssa.Instruction)), func(b *ssa.BasicBlock, k int) bool {
 			// the error edge is R6.1's business; follow only the success continuation
 			return EdgeFactMatches(b, k, FNotNil(MResultOf(w, -1)))
